@@ -1,14 +1,14 @@
 CONSTANTS
-  Impl = "pktfix"
+  Impl = "intended"
   Codecs = {"h264", "h265"}
-  MTUs = {128}
-  Sizes = {"s", "b"}
+  MTUs = {1200}
+  Sizes = {"s", "L256", "L300"}
   MaxNals = 3
   Openers = {FALSE}
-  Aggs = {TRUE, FALSE}
-  Types264 = {1, 5, 6, 7, 8}
-  Types265 = {1, 19, 32, 33, 34, 39}
-  Emit = FALSE
+  Aggs = {TRUE}
+  Types264 = {1, 5, 7, 8}
+  Types265 = {1, 19, 39}
+  Emit = TRUE
 INIT Init
 NEXT Next
 INVARIANTS Correct TailAlways PktfixExactUnlessAggN EmitVec
